@@ -81,6 +81,215 @@ def build_T6a(tree):
     return text, span_sha(block)
 
 
+def _walk_ifs(fn, pred):
+    return [n for n in ast.walk(fn) if isinstance(n, ast.If) and pred(n)]
+
+
+def _assigns_self(st, attr):
+    return isinstance(st, ast.Assign) and len(st.targets) == 1 and ast.unparse(st.targets[0]) == 'self.' + attr
+
+
+def build_T6b(tree):
+    """effective window centre / width when a window follows a rescale"""
+    fn = _init(tree)
+    hits = _walk_ifs(fn, lambda n: ast.unparse(n.test) == 'voi_center_width is not None'
+                     and any('_effective_window_center_width' in ast.unparse(s) for s in n.body))
+    if len(hits) != 1:
+        raise Unsupported('window-folding branch not found')
+    body = hits[0].body
+    if ast.unparse(body[0]) != 'center, width = voi_center_width':
+        raise Unsupported('window-folding branch no longer starts with center, width = voi_center_width')
+    rest = body[1:]
+    keep = []
+    passthrough = {'_effective_voi_function': 'voi_function', '_invert': 'invert'}
+    seen = set()
+    for st in rest:
+        done = False
+        for attr, val in passthrough.items():
+            if _assigns_self(st, attr):
+                if ast.unparse(st.value) != val:
+                    raise Unsupported(f'self.{attr} is no longer set to {val}')
+                seen.add(attr)
+                done = True
+        if not done:
+            keep.append(st)
+    if seen != set(passthrough):
+        raise Unsupported('window-folding branch no longer passes voi_function / invert through')
+    stmts = _clone(keep, self_names=['_effective_window_center_width']) + [_ret('effective_window_center_width')]
+    text = translate_block(stmts, 'foldWindow', [('center', 'rat'), ('width', 'rat'), ('intercept', 'rat'), ('slope', 'rat'),
+                                                 ('voi_function', 'str')], {},
+                           doc='`_CombinedPixelTransform.__init__`: effective (centre, width) applied to *stored* values when a '
+                               'window follows the rescale (slope, intercept); function and inversion are passed through unchanged')
+    return text, span_sha(body)
+
+
+def build_T6c(tree):
+    """effective slope / intercept when only the presentation inversion follows the rescale"""
+    fn = _init(tree)
+    hits = _walk_ifs(fn, lambda n: ast.unparse(n.test) == 'invert' and any('eff_slope' in ast.unparse(s) for s in n.body))
+    if len(hits) != 1:
+        raise Unsupported('inversion-folding branch not found')
+    node = hits[0]
+    if len(node.orelse) != 1 or ast.unparse(node.orelse[0]) != 'self._effective_slope_intercept = modality_slope_intercept':
+        raise Unsupported('non-inverted branch no longer keeps modality_slope_intercept')
+
+    class R(ast.NodeTransformer):
+        def visit_Compare(self, n):
+            if ast.unparse(n) == 'input_range is None':
+                return ast.copy_location(ast.Name(id='float_input', ctx=ast.Load()), n)
+            return n
+    body = []
+    for st in node.body:
+        st = R().visit(copy.deepcopy(st))
+        body.append(st)
+    # `imin, imax = input_range` becomes two parameters
+
+    class D(ast.NodeTransformer):
+        def visit_Assign(self, n):
+            if ast.unparse(n) == 'imin, imax = input_range':
+                return None
+            return n
+    body = [D().visit(st) for st in body]
+    stmts = _clone(body, self_names=['_effective_slope_intercept']) + [_ret('effective_slope_intercept')]
+    text = translate_block(stmts, 'foldInvert', [('slope', 'rat'), ('intercept', 'rat'), ('imin', 'int'), ('imax', 'int'),
+                                                 ('float_input', 'bool')], {},
+                           doc='`_CombinedPixelTransform.__init__`: effective (slope, intercept) of rescale followed by inversion '
+                               'within the rescaled stored range [imin, imax] (`float_input`: no integer range known)')
+    return text, span_sha(node.body)
+
+
+def build_T6d(tree):
+    """`apply_voi_window` on one value: LINEAR / LINEAR_EXACT result, SIGMOID exponent"""
+    fn = find_func(tree, 'apply_voi_window')
+    lin = _walk_ifs(fn, lambda n: 'VOILUTFunctionValues.LINEAR_EXACT' in ast.unparse(n.test) and ' in ' in ast.unparse(n.test))
+    if len(lin) != 1:
+        raise Unsupported('LINEAR/LINEAR_EXACT branch of apply_voi_window not found')
+    node = lin[0]
+    # output_min, output_max = output_range precedes; they are parameters here
+    stmts = _clone(node.body, enums=['VOILUTFunctionValues']) + [_ret('array')]
+    t1 = translate_block(stmts, 'voiWindowLinear',
+                         [('array', 'rat'), ('window_center', 'rat'), ('window_width', 'rat'), ('voi_lut_function', 'str'),
+                          ('output_min', 'rat'), ('output_max', 'rat'), ('invert', 'bool')], {},
+                         doc='`apply_voi_window`, LINEAR / LINEAR_EXACT branch, for one pixel value `array`')
+    sig = node.orelse
+    if len(sig) != 1 or not isinstance(sig[0], ast.If) or 'SIGMOID' not in ast.unparse(sig[0].test):
+        raise Unsupported('SIGMOID branch of apply_voi_window not found')
+    sbody = sig[0].body
+    out = []
+    arg = None
+    tail = []
+    for st in sbody:
+        if isinstance(st, ast.Assign) and ast.unparse(st.targets[0]) == 'exp_term':
+            v = st.value
+            if not (isinstance(v, ast.Call) and ast.unparse(v.func) == 'np.exp' and len(v.args) == 1):
+                raise Unsupported('exp_term is no longer np.exp(<argument>)')
+            arg = v.args[0]
+        elif arg is None:
+            out.append(st)
+        else:
+            tail.append(st)
+    if arg is None:
+        raise Unsupported('exp_term not found in SIGMOID branch')
+    want_tail = 'array = (output_max - output_min) / (1.0 + exp_term) + output_min'
+    if len(tail) != 1 or ast.unparse(tail[0]) != want_tail:
+        raise Unsupported('SIGMOID result is no longer (output_max - output_min) / (1.0 + exp_term) + output_min')
+    stmts2 = _clone(out) + [ast.fix_missing_locations(ast.Return(value=copy.deepcopy(arg)))]
+    t2 = translate_block(stmts2, 'voiSigmoidArg', [('array', 'rat'), ('window_center', 'rat'), ('window_width', 'rat'),
+                                                   ('invert', 'bool')], {},
+                         doc='`apply_voi_window`, SIGMOID branch: the argument of `exp`; the result is '
+                             '(output_max - output_min) / (1 + exp arg) + output_min (shape checked textually by the translator)')
+    return t1 + '\n\n' + t2, span_sha(node.body + sbody)
+
+
+def build_T6e(tree):
+    """`apply_lut`: position in the table for one value"""
+    fn = find_func(tree, 'apply_lut')
+    body = strip_doc(fn.body)
+    start = None
+    for i, st in enumerate(body):
+        if isinstance(st, ast.Assign) and ast.unparse(st.targets[0]) == 'last_mapped_value':
+            start = i
+    if start is None:
+        raise Unsupported('last_mapped_value not found in apply_lut')
+    block = body[start:]
+    last = block[-1]
+    if not (isinstance(last, ast.Return) and ast.unparse(last.value) == 'lut_data[array, ...]'):
+        raise Unsupported('apply_lut no longer returns lut_data[array, ...]')
+    # widening of the integer type is a representation matter: Int is unbounded.  Its statement is dropped after
+    # checking its shape (it may only re-type `array`).
+    keep = []
+    for st in block[:-1]:
+        src = ast.unparse(st)
+        if isinstance(st, ast.Assign) and ast.unparse(st.targets[0]) == 'array_info':
+            continue
+        if isinstance(st, ast.If) and 'array_info' in ast.unparse(st.test):
+            if [ast.unparse(x) for x in st.body] != ['array = array.astype(np.int64)'] or st.orelse:
+                raise Unsupported('type-widening branch of apply_lut changed')
+            continue
+        keep.append(st)
+    stmts = [ast.parse('array = array').body[0]] + _clone(keep) + [_ret('array')]
+    attrs = {'array': ('int', 'x'), 'array.min()': ('int', 'x'), 'array.max()': ('int', 'x'), 'len(lut_data)': ('int', 'n')}
+    text = translate_block(stmts, 'applyLutIndex', [('first_mapped_value', 'int'), ('clip', 'bool')], attrs,
+                           doc='`apply_lut` for one pixel value x and a table of n entries: the position `lut_data[...]` is read at '
+                               '(clipped to the table, or refused when clip is off)')
+    return text, span_sha(block)
+
+
+def build_T6f(tree):
+    """folding of a VOI LUT through an integer rescale: guards, direction, stride, first stored value"""
+    fn = _init(tree)
+    hits = _walk_ifs(fn, lambda n: ast.unparse(n.test) == 'voi_lut is not None'
+                     and any('get_scaled_lut_data' in ast.unparse(s) for s in n.body)
+                     and any('adjusted_first_value' in ast.unparse(s) for s in n.body))
+    if len(hits) != 1:
+        raise Unsupported('rescale + VOI LUT branch not found')
+    body = hits[0].body
+    keep = []
+    shape = []
+    for st in body:
+        src = ast.unparse(st)
+        if isinstance(st, ast.Assign) and ast.unparse(st.targets[0]) == 'voi_scaled_lut_data' and 'get_scaled_lut_data' in src:
+            shape.append('scaled')
+            continue
+        if isinstance(st, ast.If) and ast.unparse(st.test) == 'slope < 0':
+            srcs = [ast.unparse(x) for x in st.body]
+            if srcs != ['voi_scaled_lut_data = voi_scaled_lut_data[::-1]', 'voi_first_value += len(voi_scaled_lut_data) - 1'] or st.orelse:
+                raise Unsupported('negative-slope branch of the VOI LUT folding changed')
+            st = ast.parse('if slope < 0:\n    reversed_table = True\n    voi_first_value += n_entries - 1').body[0]
+            keep.append(ast.parse('reversed_table = False').body[0])
+            keep.append(st)
+            shape.append('reverse')
+            continue
+        if isinstance(st, ast.If) and ast.unparse(st.test) == 'step != 1':
+            want = ("self._effective_lut_data = voi_scaled_lut_data[::step]",
+                    "if (len(voi_scaled_lut_data) - 1) % step != 0:\n    self._effective_lut_data = "
+                    "np.concatenate([self._effective_lut_data, voi_scaled_lut_data[-1:]])")
+            got = tuple(ast.unparse(x) for x in st.body)
+            if got != want or [ast.unparse(x) for x in st.orelse] != ['self._effective_lut_data = voi_scaled_lut_data']:
+                raise Unsupported('stride branch of the VOI LUT folding changed')
+            keep.append(ast.parse('append_last = step != 1 and (n_entries - 1) % step != 0').body[0])
+            shape.append('stride')
+            continue
+        if _assigns_self(st, '_effective_lut_first_mapped_value'):
+            keep.append(ast.parse('first_out = ' + ast.unparse(st.value)).body[0])
+            continue
+        keep.append(st)
+    if shape != ['scaled', 'reverse', 'stride']:
+        raise Unsupported(f'VOI LUT folding no longer has the shape scaled/reverse/stride: {shape}')
+    stmts = _clone(keep) + [_ret('(reversed_table, step, append_last, first_out)')]
+    text = translate_block(stmts, 'foldVoiLut', [('slope', 'rat'), ('intercept', 'rat'), ('n_entries', 'int')],
+                           {'voi_lut.first_mapped_value': ('int', 'voiFirst')},
+                           doc='`_CombinedPixelTransform.__init__`, VOI LUT after a rescale: the scaled table T (n_entries long) is '
+                               'reversed if `reversed_table`, then T[::step], plus T[-1:] if `append_last`; it is applied to stored '
+                               'values with first mapped value `first_out` (list surgery checked textually by the translator)')
+    return text, span_sha(body)
+
+
 TARGETS = {
     'T6a': {'file': 'image.py', 'build': build_T6a},
+    'T6b': {'file': 'image.py', 'build': build_T6b},
+    'T6c': {'file': 'image.py', 'build': build_T6c},
+    'T6d': {'file': 'pixels.py', 'build': build_T6d},
+    'T6e': {'file': 'pixels.py', 'build': build_T6e},
+    'T6f': {'file': 'image.py', 'build': build_T6f},
 }
